@@ -1079,7 +1079,13 @@ impl World {
             let mut out = vec![];
             for m in v {
                 match m {
-                    T::Ref(..) => out.push(self.force(m.clone(), depth + 1)?),
+                    // an alias that is itself a union is spliced in; any other alias stays a reference
+                    // (keeps recursive object types finite)
+                    T::Ref(..) => match self.force(m.clone(), depth + 1)? {
+                        u @ T::Union(_) => out.push(u),
+                        T::Never => {}
+                        _ => out.push(m.clone()),
+                    },
                     o => out.push(o.clone()),
                 }
             }
